@@ -231,8 +231,7 @@ class Lite(object):
                     if (k, mname) in self.field_types_by_cls:
                         hit = True
                         out |= self.field_types_by_cls[(k, mname)]
-                if hit:
-                    return out
+                return out if hit else set()
             return set(self.field_types.get(mname, ()))
         if isinstance(e, ast.Tuple):
             out = {"tuple"}
